@@ -143,6 +143,23 @@ impl NamespaceStates {
         }
     }
 
+    /// Verification hook: snapshot of the state for a peer, without creating it.
+    #[cfg(feature = "verif-hooks")]
+    pub fn verif_peer_state(
+        &self,
+        namespace: &NamespaceId,
+        node: &EndpointId,
+    ) -> Option<super::live::VerifPeerState> {
+        let state = self.0.get(namespace)?.nodes.get(node)?;
+        Some(super::live::VerifPeerState {
+            running: match &state.state {
+                SyncState::Idle => None,
+                SyncState::Running { origin, .. } => Some(origin.clone()),
+            },
+            resync_requested: state.resync_requested,
+        })
+    }
+
     /// Remove a namespace from the set of syncing namespaces.
     pub fn remove(&mut self, namespace: &NamespaceId) -> bool {
         self.0.remove(namespace).is_some()
